@@ -555,7 +555,7 @@ def c17(acc):
     return acc.finish()
 
 
-RT_TYPES = ["F01", "F02", "F03", "F04", "F05", "F07", "F08", "F11", "F15", "F16", "F17", "F18", "F19", "F20", "F22", "F23", "F24", "F25"]
+RT_TYPES = ["F01", "F02", "F03", "F04", "F05", "F07", "F08", "F11", "F15", "F16", "F17", "F18", "F19", "F20", "F22", "F23", "F24", "F25", "F26"]
 
 
 def mc_serde(acc, types, mode, name, timeout=2500):
@@ -634,6 +634,11 @@ def c14(acc):
     mc_source(acc, 2, faults=False, name="MC_Source-c14")
     _, p = mc_serde(acc, RT_TYPES if not q else RT_TYPES[:10], "rt", "MC_Serde-c14")
     serde_replay(acc, p, "c14", "B:from_str vs from_reader under chunkings")
+    # documents with comments, PIs, CDATA, DOCTYPE, references, truncation ... (valid and not): token soups and rewritten family documents
+    _, ps = mc_de(acc, "soup", 3 if q else 4, ["F02"], "MC_De-c14soup")
+    de_replay(acc, ps, "soup", "B:token soups: from_str vs from_reader (piece sizes 1,2,3,7)", extra=["--sizes", "1,2,3,7"])
+    _, pr = mc_de(acc, "rewrite", 1, ["F02", "F07", "F16"] if q else RT_TYPES, "MC_De-c14rw")
+    de_replay(acc, pr, "rewrite", "B:rewritten family documents: from_str vs from_reader (piece sizes 1,2,3,7)", extra=["--sizes", "1,2,3,7"])
     return acc.finish()
 
 
@@ -695,7 +700,7 @@ def c15(acc):
     acc.trusted = SERDE_TRUST
     types = ["F02", "F05", "F07", "F11", "F16", "F19", "F22"] if q else RT_TYPES
     _, p = mc_de(acc, "rewrite", 1, types, "MC_De-rewrite", timeout=3400)
-    de_replay(acc, p, "rewrite", "B:rewritten documents deserialize to the original value")
+    de_replay(acc, p, "rewrite", "B:rewritten documents deserialize to the original value", extra=["--sizes", ""])
     return acc.finish()
 
 
@@ -707,7 +712,7 @@ def c20(acc):
                 "document deserialized without limit (must equal the value) and with event_buffer_size = 1..total+1: the value or TooManyEvents, TooManyEvents "
                 "whenever Held > limit, monotone in the limit. non-trivial = interleavings that need buffering")
     acc.trusted = SERDE_TRUST
-    _, p = mc_de(acc, "interleave", 1, ["F22", "F23"], "MC_De-inter")
+    _, p = mc_de(acc, "interleave", 1, ["F22", "F23", "F26"], "MC_De-inter")
     de_replay(acc, p, "interleave", "B:interleavings x buffer limits")
     return acc.finish()
 
